@@ -480,9 +480,11 @@ class _ValueClassInstance(DefaultVisitor):
     def _visit_nullaryop(self, e: NullaryOp, ctx: None) -> ValueClass:
         match e:
             case ConstNan():
-                exact = _NAN
+                # `nan()` / `inf()` hand back the special value itself: it is
+                # not rounded, whatever the active context can represent
+                return _NAN
             case ConstInf():
-                exact = _INF
+                return _INF
             case _:
                 exact = _FINITE      # pi, e, sqrt2, ...
         return self._rounded(e, exact)
